@@ -179,10 +179,30 @@ def _file_case(case: Dict[str, Any]) -> Tuple[Dict[str, Any], List[List[int]]]:
     return {"ranks": [{"rank": 0, "events": events}], "fmt": "json"}, new_spans
 
 
+def _node_maps(nodes: Dict[int, Any], own: set):
+    """parent / depth / children of the events in `own` from CallStackNode objects (negative ids = roots -> -1)."""
+    norm = lambda x: int(x) if x >= 0 else -1  # noqa: E731
+    parent = {int(i): norm(n.parent) for i, n in nodes.items() if int(i) in own}
+    depth = {int(i): int(n.depth) for i, n in nodes.items() if int(i) in own}
+    children: Dict[int, List[int]] = {-1: []}
+    for i, n in nodes.items():
+        if int(i) in own:
+            children.setdefault(int(i), [])
+    for i, p_ in parent.items():
+        children.setdefault(p_, []).append(i)
+    return parent, depth, children
+
+
 def check_file(case: Dict[str, Any]) -> CaseInfo:
     from hv.hta_io import load_trace
 
     fcase, spans = _file_case(case)
+    families = {0: spans}
+    if case.get("rank1"):
+        f1, spans1 = _file_case(case["rank1"])
+        f1["ranks"][0]["rank"] = 1
+        fcase["ranks"].append(f1["ranks"][0])
+        families[1] = spans1
     with scratch_dir() as d:
         files = write_case(fcase, d)
         t = load_trace(files, d)
@@ -190,28 +210,44 @@ def check_file(case: Dict[str, Any]) -> CaseInfo:
         from hta.common.call_stack import CallGraph as CallGraphA
 
         cg = hta_call("trace_call_graph.CallGraph", lambda: CallGraph(t))
-        df = t.get_trace(0)
-        own = set(int(i) for i in df.index[(df["tid"] == TID) & (df["stream"] == -1)])
-        parent = {int(i): (int(p) if p >= 0 else -1) for i, p in df["parent"].items() if int(i) in own}
-        depth = {int(i): int(x) for i, x in df["depth"].items() if int(i) in own}
-        children: Dict[int, List[int]] = {-1: []}
-        for i, p in parent.items():
-            children.setdefault(p, []).append(i)
-        validate(spans, parent, depth, children, "B-file")
-        # builder A through its own CallGraph (the one critical-path analysis uses)
         t2 = load_trace(files, d)
         cga = hta_call("call_stack.CallGraph", lambda: CallGraphA(t2))
-        df2 = t2.get_trace(0)
-        parent_a = {int(i): int(p) for i, p in df2["parent"].items() if int(i) in own}
-        depth_a = {int(i): int(x) for i, x in df2["depth"].items() if int(i) in own}
-        children_a: Dict[int, List[int]] = {-1: []}
-        for i, p in parent_a.items():
-            children_a.setdefault(p, []).append(i)
-        validate(spans, parent_a, depth_a, children_a, "A-file")
+        for rank, fam in families.items():
+            df = t.get_trace(rank)
+            own = set(int(i) for i in df.index[(df["tid"] == TID) & (df["stream"] == -1)])
+            parent = {int(i): (int(p) if p >= 0 else -1) for i, p in df["parent"].items() if int(i) in own}
+            depth = {int(i): int(x) for i, x in df["depth"].items() if int(i) in own}
+            children: Dict[int, List[int]] = {-1: []}
+            for i, p in parent.items():
+                children.setdefault(p, []).append(i)
+            validate(fam, parent, depth, children, f"B-file[rank {rank}]")
+            # the node objects of the call graph (what get_parent / get_children / traversals use)
+            pn, dn, cn = _node_maps(cg.rank_to_nodes[rank], own)
+            validate(fam, pn, dn, cn, f"B-nodes[rank {rank}]")
+            for csg in cg.get_call_stacks(rank=rank, pid=PID, tid=TID):
+                pn, dn, cn = _node_maps(csg.get_nodes(), own)
+                validate(fam, pn, dn, cn, f"B-stack-nodes[rank {rank}]")
+            # builder A through its own CallGraph (the one critical-path analysis uses)
+            df2 = t2.get_trace(rank)
+            parent_a = {int(i): int(p) for i, p in df2["parent"].items() if int(i) in own}
+            depth_a = {int(i): int(x) for i, x in df2["depth"].items() if int(i) in own}
+            children_a: Dict[int, List[int]] = {-1: []}
+            for i, p in parent_a.items():
+                children_a.setdefault(p, []).append(i)
+            validate(fam, parent_a, depth_a, children_a, f"A-file[rank {rank}]")
+            for csg in cga.call_stacks:
+                if csg.identity.rank == rank and csg.identity.tid == TID and csg.identity.pid == PID:
+                    pn = {int(i): int(n.parent) for i, n in csg.get_nodes().items() if int(i) in own}
+                    dn = {int(i): int(n.depth) for i, n in csg.get_nodes().items() if int(i) in own}
+                    cn2: Dict[int, List[int]] = {-1: []}
+                    for i, p in pn.items():
+                        cn2.setdefault(p, []).append(i)
+                    validate(fam, pn, dn, cn2, f"A-stack-nodes[rank {rank}]")
     kinds = tie_kinds(spans)
     nt = any(k in kinds for k in ("shared_start", "shared_end", "identical", "touching", "zero_at_touching_boundary",
                                   "zero_at_end", "zero_at_start"))
-    return CaseInfo(nontrivial=nt, classes=list(kinds) + ["via_file"] + (["other_thread_or_stream_events"] if case.get("others") else []))
+    return CaseInfo(nontrivial=nt, classes=list(kinds) + ["via_file"] + (["other_thread_or_stream_events"] if case.get("others") else [])
+                    + (["two_ranks_one_call_graph"] if case.get("rank1") else []))
 
 
 @st.composite
@@ -220,6 +256,8 @@ def family_with_other_threads(draw):
     instants = sorted({ts for _, ts, _ in case["spans"]} | {ts + d for _, ts, d in case["spans"]})
     n = draw(st.sampled_from([0, 2, 3, 5]))
     case["others"] = [[draw(st.sampled_from(instants)), draw(st.sampled_from(instants + [instants[0] - 1, instants[-1] + 2]))] for _ in range(n)]
+    if draw(st.sampled_from([True, False, False])):
+        case["rank1"] = draw(span_family(max_events=10))  # a second rank with its own family: one CallGraph over both ranks
     return case
 
 
@@ -236,5 +274,5 @@ def campaigns(tier: str) -> List[Campaign]:
         Campaign("direct", span_family(), check_direct, quick=3200, thorough=320000, quick_shards=8, fuzz_runs=80000,
                  required_classes=REQ, sample_view=view),
         Campaign("via_file", family_with_other_threads(), check_file, quick=320, thorough=16000, quick_shards=8,
-                 required_classes={"touching": 0.1, "other_thread_or_stream_events": 0.3}, sample_view=view),
+                 required_classes={"touching": 0.1, "other_thread_or_stream_events": 0.3, "two_ranks_one_call_graph": 0.15}, sample_view=view),
     ]
